@@ -66,6 +66,9 @@ def _fresh_or_clean(name, cwd, env, extra):
     old = open(stamp_p).read() if os.path.exists(stamp_p) else ""
     if old != cur:
         subprocess.run(["cargo", "clean", "--offline", "-p", "stylua"] + extra, cwd=cwd, env=env, capture_output=True, text=True)
+        if name == "harness":
+            # the harness binary itself is relinked too (cargo did not always notice a switched path dependency)
+            subprocess.run(["cargo", "clean", "--offline", "-p", "vh"] + extra, cwd=cwd, env=env, capture_output=True, text=True)
         with open(stamp_p, "w") as f:
             f.write(cur)
 
